@@ -321,3 +321,7 @@ func (s *Session) afterChange(members []uint64) {
 
 func Pick[T any](r *hlib.Rng, xs []T) T { return hlib.Pick(r, xs) }
 func F(format string, a ...any) string  { return hlib.F(format, a...) }
+
+// Revive lets the harness keep observing a session after an operation timed out (a membership
+// change asleep in its retry loop): repair tasks and dumps do not depend on the sleeping goroutine.
+func (s *Session) Revive() { s.Dead = false }
